@@ -20,6 +20,9 @@ LEVEL_TEXT = ("static: decides only the finite part of RFC agreement: header fla
               "number of digits; the name parser rejects only on wire-derived conditions (no implementation-chosen iteration limits). Does NOT decide "
               "agreement with a reference decoder on all inputs."
               " Also decides (LIMIT) that the parse path fails on magnitudes only at frozen protocol limits, (PURE) that numeric wire fields reach the record unmodified, (ZEROLEN) that zero-length fields the RFC allows are not turned into errors.")
+# fifth-round additions
+TECHNIQUE += "; " + "exact evaluation of ares_dns_class_isvalid (switch included) over types x classes, linear normal form of the name splitter's rejecting guards at the legal maxima, guard vocabulary of the name write path, escape-aware gate on the compression match, shape of the option-storing callee"
+LEVEL_TEXT += " " + "(CLASS) undecoded types are taken with any class, IN/CH/HS/NONE for every type, ANY in questions; (NAMELEN) labels of 63 and names of 255 wire octets pass the splitter; (PRESLIMIT) no failure on the length of a presentation name on the write path; (SUFFIX) a compression match is accepted only behind a gate derived from a test of the escape character; (PURE) the OPT class/ttl overload is keyed on the record's own type; (OPTDUP) repeated option codes are not collapsed -- violated on the pinned tree, known finding."
 LEVEL_NOTE = "trusts clang CFG + extractor and the frozen table tables/iana.json (written from the RFCs); differential agreement on all messages needs execution"
 DESIGN_REF = "DESIGN.md §6/C04"
 EXPLANATION = LEVEL_TEXT
